@@ -81,10 +81,18 @@ func canonType(t string) string {
 	return t
 }
 
+func cfgTag(cfg string) string {
+	if cfg == "core" || cfg == "" {
+		return ""
+	}
+	return "@" + cfg
+}
+
 var opNameRe = regexp.MustCompile(`^(\+|-|\*|/|%|\*\*|<|>|<=|>=|==|!=|<=>|<<|>>|&|\||\^)$`)
 var plainNameRe = regexp.MustCompile(`^[a-z_][a-z0-9_]*[?!]?$`)
 
 type bcCase struct {
+	cfg      string
 	src      string
 	recv     recvKind
 	method   string
@@ -129,86 +137,113 @@ func builtinCalls(x *ctx, prop string) {
 	}
 	rec(nil)
 	var cases []bcCase
-	for _, rv := range bcReceivers {
-		// candidate method names: everything declared anywhere for literal classes, plus two undeclared names
-		nameSet := map[string]bool{"zork_undeclared": true, "frobnicate": true}
-		for _, cl := range cfg.Classes {
-			for n := range cl.Inst {
-				nameSet[n] = true
-			}
-		}
-		var names []string
-		for n := range nameSet {
-			names = append(names, n)
-		}
-		sort.Strings(names)
-		for _, name := range names {
-			isOp := opNameRe.MatchString(name)
-			isIdx := false
-			// `[]` and Array#<< are evaluated by ti's own indexing / append evaluators, not through the
-			// declared signature (the shipped array.json even declares `[]` as returning Self): out of this
-			// model's domain; indexing and << are covered by the straight-line family of C09.
-			if name == "[]" || (name == "<<" && rv.class == "Array") {
-				continue
-			}
-			if !isOp && !isIdx && !plainNameRe.MatchString(name) {
-				continue
-			}
-			if name == "dbtp" || name == "dbp" || name == "p" || name == "puts" || name == "print" || name == "require" || name == "raise" || name == "loop" || name == "lambda" || name == "proc" ||
-				name == "sleep" || name == "attr_reader" || name == "attr_writer" || name == "attr_accessor" || name == "include" || name == "extend" || name == "private" || name == "protected" || name == "new" ||
-				name == "is_a?" || name == "nil?" || name == "class" || name == "send" || name == "freeze" || name == "catch" || name == "block_given?" || name == "gets" || name == "exit" || name == "system" {
-				continue // evaluator keywords / Kernel plumbing: not ordinary configured calls
-			}
-			ms := cfg.Lookup(rv.class, name)
-			// quick tier: undeclared-for-this-receiver names only with 0 and 1 arguments
-			for _, tu := range tuples {
-				if (isOp || isIdx) && len(tu) != 1 {
+	genFor := func(cfgName string, cfg *ref.Config, receivers []recvKind, onlyClasses map[string]bool) {
+		for _, rv := range receivers {
+			// candidate method names: everything declared anywhere for literal classes, plus two undeclared names
+			nameSet := map[string]bool{"zork_undeclared": true, "frobnicate": true}
+			for cn, cl := range cfg.Classes {
+				if onlyClasses != nil && !onlyClasses[cn] {
 					continue
 				}
-				if ms == nil && len(tu) > 1 {
+				for n := range cl.Inst {
+					nameSet[n] = true
+				}
+			}
+			var names []string
+			for n := range nameSet {
+				names = append(names, n)
+			}
+			sort.Strings(names)
+			for _, name := range names {
+				isOp := opNameRe.MatchString(name)
+				isIdx := false
+				// `[]` and Array#<< are evaluated by ti's own indexing / append evaluators, not through the
+				// declared signature (the shipped array.json even declares `[]` as returning Self): out of this
+				// model's domain; indexing and << are covered by the straight-line family of C09.
+				if name == "[]" || (name == "<<" && rv.class == "Array") {
 					continue
 				}
-				var lits, classes []string
-				for _, i := range tu {
-					lits = append(lits, bcArgs[i].lit)
-					classes = append(classes, bcArgs[i].class)
+				if !isOp && !isIdx && !plainNameRe.MatchString(name) {
+					continue
 				}
-				call := "rv." + name
-				switch {
-				case isOp:
-					call = "rv " + name + " " + lits[0]
-				case isIdx:
-					call = "rv[" + lits[0] + "]"
-				case len(lits) > 0:
-					call += "(" + strings.Join(lits, ", ") + ")"
+				if name == "dbtp" || name == "dbp" || name == "p" || name == "puts" || name == "print" || name == "require" || name == "raise" || name == "loop" || name == "lambda" || name == "proc" ||
+					name == "sleep" || name == "attr_reader" || name == "attr_writer" || name == "attr_accessor" || name == "include" || name == "extend" || name == "private" || name == "protected" || name == "new" ||
+					name == "is_a?" || name == "nil?" || name == "class" || name == "send" || name == "freeze" || name == "catch" || name == "block_given?" || name == "gets" || name == "exit" || name == "system" {
+					continue // evaluator keywords / Kernel plumbing: not ordinary configured calls
 				}
-				c := bcCase{src: bcSetup + "rv = " + rv.lit + "\ndbtp " + call + "\n", recv: rv, method: name, args: classes, declared: ms != nil}
-				if ms == nil {
-					c.verdict, c.reason = ref.Fails, "undeclared"
-				} else {
-					var m *ref.Method
-					c.verdict, c.reason, m = ref.AcceptAny(ms, classes)
-					if c.verdict == ref.Fits && m != nil {
-						// all certainly-fitting overloads must agree on the return type for C09
-						want, ok := m.RetType(rv.class, rv.elems)
-						if ok {
-							for _, o := range ms {
-								if v, _ := o.Accept(classes); v != ref.Fails && o != m {
-									w2, ok2 := o.RetType(rv.class, rv.elems)
-									if !ok2 || canonType(w2) != canonType(want) {
-										ok = false
+				ms := cfg.Lookup(rv.class, name)
+				// quick tier: undeclared-for-this-receiver names only with 0 and 1 arguments
+				for _, tu := range tuples {
+					if (isOp || isIdx) && len(tu) != 1 {
+						continue
+					}
+					if ms == nil && len(tu) > 1 {
+						continue
+					}
+					var lits, classes []string
+					for _, i := range tu {
+						lits = append(lits, bcArgs[i].lit)
+						classes = append(classes, bcArgs[i].class)
+					}
+					call := "rv." + name
+					switch {
+					case isOp:
+						call = "rv " + name + " " + lits[0]
+					case isIdx:
+						call = "rv[" + lits[0] + "]"
+					case len(lits) > 0:
+						call += "(" + strings.Join(lits, ", ") + ")"
+					}
+					c := bcCase{cfg: cfgName, src: bcSetup + "rv = " + rv.lit + "\ndbtp " + call + "\n", recv: rv, method: name, args: classes, declared: ms != nil}
+					if ms == nil {
+						c.verdict, c.reason = ref.Fails, "undeclared"
+					} else {
+						var m *ref.Method
+						c.verdict, c.reason, m = ref.AcceptAny(ms, classes)
+						if c.verdict == ref.Fits && m != nil {
+							// all certainly-fitting overloads must agree on the return type for C09
+							want, ok := m.RetType(rv.class, rv.elems)
+							if ok {
+								for _, o := range ms {
+									if v, _ := o.Accept(classes); v != ref.Fails && o != m {
+										w2, ok2 := o.RetType(rv.class, rv.elems)
+										if !ok2 || canonType(w2) != canonType(want) {
+											ok = false
+										}
 									}
 								}
 							}
-						}
-						if ok {
-							c.wantType = canonType(want)
+							if ok {
+								c.wantType = canonType(want)
+							}
 						}
 					}
+					cases = append(cases, c)
 				}
-				cases = append(cases, c)
 			}
 		}
+	}
+	genFor("core", cfg, bcReceivers, nil)
+	// generated configurations: a base class and a subclass that overrides one method with a different
+	// signature and adds one; loaded base-file-first and subclass-file-first. Receivers are instances.
+	ret := func(t string) gen.CfgRet { return gen.CfgRet{Type: []string{t}} }
+	newM := func(cls string) gen.CfgMethod {
+		return gen.CfgMethod{Name: "new", Arguments: []gen.CfgArg{}, ReturnType: ret(cls)}
+	}
+	gbase := gen.CfgClass{Frame: "Builtin", Class: "Gbase", ClassMethods: []gen.CfgMethod{newM("Gbase")}, InstanceMethods: []gen.CfgMethod{
+		{Name: "mm", Arguments: []gen.CfgArg{{Type: []string{"Int"}}}, ReturnType: ret("Int")},
+		{Name: "nn", Arguments: []gen.CfgArg{}, ReturnType: ret("String")},
+		{Name: "oo", Arguments: []gen.CfgArg{{Type: []string{"String"}}, {Type: []string{"DefaultInt"}}}, ReturnType: ret("Symbol")}}}
+	gsub := gen.CfgClass{Frame: "Builtin", Class: "Gsub", Extends: []string{"Gbase"}, ClassMethods: []gen.CfgMethod{newM("Gsub")}, InstanceMethods: []gen.CfgMethod{
+		{Name: "mm", Arguments: []gen.CfgArg{{Type: []string{"String"}}, {Type: []string{"String"}}}, ReturnType: ret("Float")},
+		{Name: "kk", Arguments: []gen.CfgArg{{Type: []string{"Symbol"}}}, ReturnType: ret("Bool")}}}
+	genCfgs := map[string]map[string]string{
+		"gen-base-first": gen.Merge(core, map[string]string{"gbase.json": gbase.JSON(), "gsub.json": gsub.JSON()}),
+		"gen-sub-first":  gen.Merge(core, map[string]string{"zz_gbase.json": gbase.JSON(), "aa_gsub.json": gsub.JSON()}),
+	}
+	for _, n := range []string{"gen-base-first", "gen-sub-first"} {
+		x.pool.NewCfgDir(n, genCfgs[n])
+		genFor(n, ref.Load(genCfgs[n]), []recvKind{{"Gbase", "Gbase.new", nil}, {"Gsub", "Gsub.new", nil}}, map[string]bool{"Gbase": true, "Gsub": true})
 	}
 	// select by property
 	var sel []bcCase
@@ -234,7 +269,7 @@ func builtinCalls(x *ctx, prop string) {
 	}
 	ecases := make([]*engine.Case, 0, len(sel)+len(sl))
 	for _, c := range sel {
-		ecases = append(ecases, &engine.Case{Cfg: "core", Files: map[string]string{"t.rb": c.src}, Argv: []string{"t.rb"}})
+		ecases = append(ecases, &engine.Case{Cfg: c.cfg, Files: map[string]string{"t.rb": c.src}, Argv: []string{"t.rb"}})
 	}
 	for _, p := range sl {
 		ecases = append(ecases, &engine.Case{Cfg: "core", Files: map[string]string{"t.rb": p.src}, Argv: []string{"t.rb"}})
@@ -268,7 +303,7 @@ func builtinCalls(x *ctx, prop string) {
 		}
 		r.Outcome(prop + "|" + outcomeShape(rr.Stdout, "t.rb"))
 		if i%211 == 0 {
-			recs = append(recs, execRec{"core", ecases[i].Files, ecases[i].Argv, rr.Stdout})
+			recs = append(recs, execRec{ecases[i].Cfg, ecases[i].Files, ecases[i].Argv, rr.Stdout})
 		}
 		recsOnRow := rowRecords(rr.Stdout, bcCallRow)
 		nDiag := len(recsOnRow) - 1 // the last record of the row is dbtp's own output
@@ -278,12 +313,12 @@ func builtinCalls(x *ctx, prop string) {
 		switch prop {
 		case "C07":
 			if nDiag < 1 {
-				sig := fmt.Sprintf("c07:%s#%s(%s):%s", c.recv.class, c.method, argSig(c.args), c.reason)
+				sig := fmt.Sprintf("c07:%s#%s(%s):%s%s", c.recv.class, c.method, argSig(c.args), c.reason, cfgTag(c.cfg))
 				bySig[sig] = append(bySig[sig], viol{i, fmt.Sprintf("certainly failing call (%s) not reported: %q printed %q", c.reason, lastStmt(c.src), strings.TrimSpace(rr.Stdout))})
 			}
 		case "C08":
 			if nDiag >= 1 {
-				sig := fmt.Sprintf("c08:%s#%s(%s)", c.recv.class, c.method, argSig(c.args))
+				sig := fmt.Sprintf("c08:%s#%s(%s)%s", c.recv.class, c.method, argSig(c.args), cfgTag(c.cfg))
 				bySig[sig] = append(bySig[sig], viol{i, fmt.Sprintf("certainly accepted call reported: %q printed %q", lastStmt(c.src), strings.TrimSpace(rr.Stdout))})
 			}
 		case "C09":
@@ -308,7 +343,7 @@ func builtinCalls(x *ctx, prop string) {
 		}
 		r.Outcome("sl|" + rr.Stdout)
 		if j%53 == 0 {
-			recs = append(recs, execRec{"core", ecases[i].Files, ecases[i].Argv, rr.Stdout})
+			recs = append(recs, execRec{ecases[i].Cfg, ecases[i].Files, ecases[i].Argv, rr.Stdout})
 		}
 		for _, pb := range p.probes {
 			r.Nontrivial++
@@ -360,7 +395,7 @@ func builtinCalls(x *ctx, prop string) {
 				continue
 			}
 			budget--
-			rr := x.realStable("core", ecases[v.idx].Files, ecases[v.idx].Argv)
+			rr := x.realStable(ecases[v.idx].Cfg, ecases[v.idx].Files, ecases[v.idx].Argv)
 			if rr.Stdout != res[v.idx].Stdout {
 				r.Unconfirmed = append(r.Unconfirmed, s+" (real binary prints something else)")
 				continue
